@@ -4,6 +4,7 @@ import (
 	"bytes"
 	"fmt"
 	"reflect"
+	"strings"
 	"testing"
 	"unsafe"
 
@@ -56,7 +57,37 @@ type sameNameLong struct {
 var unsupportedKinds = []string{"named uintptr", "named chan", "named func", "named complex128",
 "chan", "func", "complex64", "complex128", "uintptr", "unsafe.Pointer",
 	"nil chan", "nil func", "struct{nil chan}",
-	"struct{chan}", "*struct{chan}", "struct{func}", "struct{[]complex128}", "struct{map[string]func}", "struct{*struct{chan}}", "[]chan", "struct{[]chan}", "map[string]chan", "[]interface{}{chan}"}
+	"struct{chan}", "*struct{chan}", "struct{func}", "struct{[]complex128}", "struct{map[string]func}", "struct{*struct{chan}}", "[]chan", "struct{[]chan}", "map[string]chan", "[]interface{}{chan}",
+	// a Go int beyond the 32 bits of the wire type chosen for its kind: not representable as that type. The call
+	// fails, or (should the library choose a wider form) carries the number - see carriedOrFails
+	"int beyond 32 bits", "negative int beyond 32 bits", "[]int{.., beyond 32 bits, ..}", "map[string]int{beyond 32 bits}", "struct{int beyond 32 bits}"}
+
+const c13Big = int64(1)<<40 + 12345
+
+type bigIntField struct {
+	A int32
+	N int
+	B string
+}
+
+// carriedOrFails is the verdict for the wide-int kinds when the encode call returned nil: the stream must be one
+// well-formed value under the independent reading and must contain the number, unaltered.
+func carriedOrFails(b []byte) string {
+	a, _, derr := refcodec.Decode(b)
+	if derr != nil {
+		return fmt.Sprintf("ToBytes returned nil error for a value holding a Go int beyond 32 bits, and %d octets %s that are not a well-formed value: %v", len(b), hexClip(b, 60), derr)
+	}
+	found := false
+	av.Walk(a, func(x *av.V) {
+		if (x.K == av.Long || x.K == av.Int) && (x.I == c13Big || x.I == -c13Big) {
+			found = true
+		}
+	})
+	if !found {
+		return fmt.Sprintf("ToBytes returned nil error for a value holding the Go int %d, and the stream %s does not contain that number: %s", c13Big, hexClip(b, 60), shortAV(a))
+	}
+	return ""
+}
 
 func unsupportedValue(kind string) interface{} {
 	x := 5
@@ -108,6 +139,16 @@ func unsupportedValue(kind string) interface{} {
 		return map[string]chan int{"c": make(chan int)}
 	case "[]interface{}{chan}":
 		return []interface{}{int32(1), make(chan int), int32(3)}
+	case "int beyond 32 bits":
+		return int(c13Big)
+	case "negative int beyond 32 bits":
+		return int(-c13Big)
+	case "[]int{.., beyond 32 bits, ..}":
+		return []int{1, int(c13Big), 3}
+	case "map[string]int{beyond 32 bits}":
+		return map[string]int{"n": int(c13Big)}
+	case "struct{int beyond 32 bits}":
+		return &bigIntField{A: 1, N: int(c13Big), B: "b"}
 	}
 	panic("unknown kind " + kind)
 }
@@ -220,11 +261,17 @@ var c13Tops = []reflect.Type{zoo.T(zoo.AnyList{}), zoo.T(zoo.AnyMap{}), zoo.T(zo
 
 // mustFail: encoding v, which holds a non-nil unsupported value, must return an
 // error and must not panic.
-func mustFail(v interface{}, nm map[string]string) string {
+func mustFail(v interface{}, nm map[string]string, wide bool) string {
 	var b []byte
 	var err error
 	if pv, st := guard(func() { b, err = hessian.ToBytes(v, nm) }); pv != nil {
 		return fmt.Sprintf("ToBytes panicked: %v [%s]", pv, st)
+	}
+	if err == nil && wide {
+		if msg := carriedOrFails(b); msg != "" {
+			return msg
+		}
+		return ""
 	}
 	if err == nil {
 		a, _, derr := refcodec.Decode(b)
@@ -264,7 +311,7 @@ func TestC13(t *testing.T) {
 	r := rec.For("C13")
 	// ---- top level and static carriers, every kind (fixed part)
 	for _, k := range unsupportedKinds {
-		if msg := mustFail(unsupportedValue(k), nil); msg != "" {
+		if msg := mustFail(unsupportedValue(k), nil, strings.Contains(k, "beyond 32 bits")); msg != "" {
 			directFail(t, "C13", map[string]interface{}{"kind": k, "position": "top level"}, "C13 top-level %s: %s", k, msg)
 		}
 		r.Eval()
@@ -273,7 +320,7 @@ func TestC13(t *testing.T) {
 	{
 		v := []interface{}{&sameNameShort{A: 1}, &sameNameLong{A: 2, C: make(chan int)}}
 		nm := map[string]string{"sameNameShort": "x.Same", "sameNameLong": "x.Same"}
-		if msg := mustFail(v, nm); msg != "" {
+		if msg := mustFail(v, nm, false); msg != "" {
 			directFail(t, "C13", map[string]interface{}{"kind": "chan in the longer of two types sharing a class name"}, "C13 two types under one class name: %s", msg)
 		}
 		r.Eval()
@@ -345,7 +392,7 @@ func TestC13(t *testing.T) {
 				if restore == nil {
 					continue // unhashable as a map key
 				}
-				msg := mustFail(target, copyNames(nm))
+				msg := mustFail(target, copyNames(nm), strings.Contains(k, "beyond 32 bits"))
 				restore()
 				r.Eval()
 				r.NonTrivial(h ^ uint64(si)<<20 ^ uint64(ki)<<4)
